@@ -39,6 +39,22 @@ static int nops;
 
 static const char *lname(int l) { return l ? "B" : "A"; }
 
+/* Vacuity counters count explored transitions only, not the replayed prefixes: the engine bumps its "transitions"
+ * counter immediately before the apply() of a new transition. */
+static bool g_counting;
+static void detect_new_transition(void) {
+    static int tc = -1;
+    static uint64_t last;
+    if (tc < 0) tc = v_counter("transitions");
+    uint64_t cur = v_sh->slot[v_worker].counters[tc];
+    g_counting = cur != last;
+    last = cur;
+}
+#define EV(name)                                                                                                 \
+    do {                                                                                                         \
+        if (g_counting) V_COUNT(name, 1);                                                                        \
+    } while (0)
+
 static void m_opname(int o, char *buf, size_t cap) {
     const struct op *p = &ops[o];
     switch (p->kind) {
@@ -184,6 +200,7 @@ static void m_apply(int o) {
     const struct op *p = &ops[o];
     char nm[64];
     m_opname(o, nm, sizeof(nm));
+    detect_new_transition();
     int l, pos, l2, pos2;
     switch (p->kind) {
         case O_PUSH_FRONT:
@@ -201,7 +218,7 @@ static void m_apply(int o) {
             int want = r_remove(p->a, front ? 0 : rlen[p->a] - 1);
             ESX_CHECK(got == &node[want], "pop-node", "%s returned %s%d, reference pops n%d", nm, node_index(got) >= 0 ? "n" : "non-pool pointer ", node_index(got), want);
             if (!esx_failed) ESX_CHECK(got->next == NULL && got->prev == NULL, "detached", "%s: the popped node n%d keeps a link", nm, want);
-            if (rlen[p->a] == 0) V_COUNT("pop_last_node", 1);
+            if (rlen[p->a] == 0) EV("pop_last_node");
             break;
         }
         case O_INSERT_BEFORE:
@@ -210,19 +227,19 @@ static void m_apply(int o) {
             if (p->kind == O_INSERT_BEFORE) {
                 aws_linked_list_insert_before(&node[p->a], &node[p->b]);
                 r_insert(l, pos, p->b);
-                if (pos == 0) V_COUNT("insert_before_first", 1);
+                if (pos == 0) EV("insert_before_first");
             } else {
                 aws_linked_list_insert_after(&node[p->a], &node[p->b]);
                 r_insert(l, pos + 1, p->b);
-                if (pos + 2 == rlen[l]) V_COUNT("insert_after_last", 1);
+                if (pos + 2 == rlen[l]) EV("insert_after_last");
             }
             break;
         case O_REMOVE:
             where(p->a, &l, &pos);
             aws_linked_list_remove(&node[p->a]);
             r_remove(l, pos);
-            if (rlen[l] == 0) V_COUNT("remove_only_node", 1);
-            else if (pos > 0 && pos < rlen[l]) V_COUNT("remove_middle", 1);
+            if (rlen[l] == 0) EV("remove_only_node");
+            else if (pos > 0 && pos < rlen[l]) EV("remove_middle");
             break;
         case O_SWAP_NODES:
             where(p->a, &l, &pos);
@@ -230,12 +247,12 @@ static void m_apply(int o) {
             aws_linked_list_swap_nodes(&node[p->a], &node[p->b]);
             seq[l][pos] = p->b;
             seq[l2][pos2] = p->a;
-            if (p->a == p->b) V_COUNT("swap_identical", 1);
-            else if (l != l2) V_COUNT("swap_across_lists", 1);
-            else if (pos + 1 == pos2) V_COUNT("swap_adjacent_a_first", 1);
-            else if (pos2 + 1 == pos) V_COUNT("swap_adjacent_b_first", 1);
-            else V_COUNT("swap_non_adjacent", 1);
-            if (p->a != p->b && l != l2 && (rlen[l] == 1 || rlen[l2] == 1)) V_COUNT("swap_across_lists_single_node", 1);
+            if (p->a == p->b) EV("swap_identical");
+            else if (l != l2) EV("swap_across_lists");
+            else if (pos + 1 == pos2) EV("swap_adjacent_a_first");
+            else if (pos2 + 1 == pos) EV("swap_adjacent_b_first");
+            else EV("swap_non_adjacent");
+            if (p->a != p->b && l != l2 && (rlen[l] == 1 || rlen[l2] == 1)) EV("swap_across_lists_single_node");
             break;
         case O_SWAP_CONTENTS: {
             aws_linked_list_swap_contents(&LL[p->a], &LL[p->b]);
@@ -245,17 +262,17 @@ static void m_apply(int o) {
             rlen[p->a] = rlen[p->b];
             memcpy(seq[p->b], t, sizeof(t));
             rlen[p->b] = tl;
-            if (rlen[0] && rlen[1]) V_COUNT("swap_contents_both_nonempty", 1);
-            else if (rlen[0] || rlen[1]) V_COUNT("swap_contents_one_empty", 1);
-            else V_COUNT("swap_contents_both_empty", 1);
+            if (rlen[0] && rlen[1]) EV("swap_contents_both_nonempty");
+            else if (rlen[0] || rlen[1]) EV("swap_contents_one_empty");
+            else EV("swap_contents_both_empty");
             break;
         }
         case O_MOVE_ALL_FRONT:
         case O_MOVE_ALL_BACK: {
             int dst = p->a, src = p->b;
-            if (rlen[src] && rlen[dst]) V_COUNT("move_all_both_nonempty", 1);
-            else if (rlen[src]) V_COUNT("move_all_into_empty", 1);
-            else V_COUNT("move_all_from_empty", 1);
+            if (rlen[src] && rlen[dst]) EV("move_all_both_nonempty");
+            else if (rlen[src]) EV("move_all_into_empty");
+            else EV("move_all_from_empty");
             if (p->kind == O_MOVE_ALL_FRONT) {
                 aws_linked_list_move_all_front(&LL[dst], &LL[src]);
                 for (int i = rlen[src] - 1; i >= 0; --i) r_insert(dst, 0, seq[src][i]);
